@@ -559,7 +559,7 @@ def interpolate_ntv2(grid_object, lat, lon, method='bicubic'):
     # point of interest, then call relevant interpolation method function
 
     # determine number of columns
-    num_cols = 1 + int((in_grid.w_long - in_grid.e_long) / in_grid.long_inc)
+    num_cols = 1 + int(round((in_grid.w_long - in_grid.e_long) / in_grid.long_inc))
 
     # determine row and col numbers of node below right of point
     row = int((lat - in_grid.s_lat) / in_grid.lat_inc)
